@@ -4,7 +4,7 @@ harness/shim_hashset.c).  All randomness comes from the `rng` argument.
 Op vocabulary (table):   new cap= lf= hash= [seed=] [klen=] [keys=buf] | new_default | add k v | get k |
   contains_key k | remove k [noout=1] | remove_all | foreach_key | foreach_value |
   mk_keys to=s | mk_values to=s | arr_add v o=s | arr_destroy o=s | it_new | it_next |
-  it_remove [noout=1] | destroy_table | destroy
+  it_remove [noout=1] | destroy_table | observe | destroy   (constructor lines take obs=sparse)
 Op vocabulary (set):     new … | new_default | add e | contains e | remove e [noout=1] | remove_all |
   foreach | it_new | it_next | it_remove [noout=1] | destroy
 Keys/elements are integers, 0 is the NULL key.
@@ -145,7 +145,9 @@ class HashTableGen:
                 ops += ([] if self.is_set else ["get 5", "get 300", "get 6"])
                 ops += ["remove 5", "remove 5", self._add(300, 53), self._add(0, 54)] + self._tail(3) + ["destroy"]
                 out.append(ops)
-        return out
+        import random as _r
+        det = _r.Random(12345)
+        return [sparsify(det, h) if i % 3 == 2 else h for i, h in enumerate(out)]
 
     def fault_enumeration(self):
         """every allocation of every allocating op refused once.  Uses fail= explicitly, so it is not
@@ -171,7 +173,10 @@ class HashTableGen:
     def random(self, rng, n, tier, focus=None):
         out = []
         for _ in range(n):
-            out.append(self._one(rng, tier, focus))
+            h = self._one(rng, tier, focus)
+            if rng.random() < 0.34:
+                h = sparsify(rng, h)
+            out.append(h)
         return out
 
     def _weights(self, focus):
@@ -272,6 +277,21 @@ class HashTableGen:
                     table = False
         ops.append("destroy")
         return ops
+
+
+def sparsify(rng, h):
+    """obs=sparse session: no content sweep after the operations; `observe` every 5-15 ops and one
+    before the final destroy"""
+    out = [h[0] + " obs=sparse"]
+    gap = rng.randint(5, 15)
+    for op in h[1:-1]:
+        out.append(op)
+        gap -= 1
+        if gap == 0:
+            out.append("observe")
+            gap = rng.randint(5, 15)
+    out += ["observe", h[-1]]
+    return out
 
 
 def inject_faults(rng, histories, p=0.15):
